@@ -35,6 +35,20 @@ pub fn clear_registry() {
     });
 }
 
+/// TCP segmentation for this run, decided by the run's own random stream: in one run out of `one_in` a quarter of
+/// the writes arrive as two segments (`between_nodes_only`: only on the links between nodes)
+pub fn maybe_segment(one_in: u64, between_nodes_only: bool) {
+    with(|k| {
+        let mut rng = k.rng;
+        let on = rng.below(one_in) == 0;
+        k.rng = rng;
+        if on {
+            k.net.segment_p = 64;
+            k.net.segment_scope = if between_nodes_only { 1 } else { 0 };
+        }
+    });
+}
+
 pub fn sleep_ms(ms: u64) {
     kernel::sleep_ns(ms * MS);
 }
